@@ -771,6 +771,8 @@ def run(ctx):
                        'invertible, which is what makes the table temperature observable',
                        'the per-class table is read through the coupling slot (end of each accepted step); RK4 stage tables are not examined',
                        'spherical precipitates (the Gibbs-Thomson energy of a class is then 2 gamma Vm / r from the configuration)',
+                       'lookup stage: RK4 is not combined with two precipitate phases - on this backend those runs need more than '
+                       'the 12000-step horizon (two-phase RK4 runs are in the schedule stage, where O3 is evaluated as well)',
                        'diffusion models: temperatures are observed at the public hashTable attribute (a never-caching recorder) and '
                        'evaluation times through an instance-level wrapper of _getFluxes']
     caps = []
@@ -823,6 +825,8 @@ def run(ctx):
             for mdt in [1.0, 10.0]:
                 for it in its:
                     for nph in ([1] if quick else [1, 2]):
+                        if it == 'rk4' and nph == 2:
+                            continue       # see assumptions: these runs exceed the step horizon
                         cfg = {'system': 'bin', 'nphases': nph, 'it': it, 'tf': tfl,
                                'constraints': {'dtScale': 0.05, 'maxTempChange': mtc, 'maxNonIsothermalDT': mdt},
                                'solve': {'maxDtFrac': 0.02 if spec.get('rate', 0) in (3000.0, -3000.0) else 0.01}}
@@ -872,7 +876,7 @@ def run(ctx):
                   'respec': {'how': ['setter', 'mutate'], 'ordered pairs of': [Sched(s).label() for s in picks]},
                   'lookup': {'schedules': ['%s %s' % (Sched(sp).label(), sp.get('rate', sp.get('temps', ''))) for sp, _ in lspecs],
                              'maxTempChange': [1.0, 5.0], 'maxNonIsothermalDT': [1.0, 10.0], 'iterators': its,
-                             'phases': [1] if quick else [1, 2]},
+                             'phases': [1] if quick else [1, 2], 'excluded': 'rk4 x 2 phases'},
                   'diffusion': {'models': ['single', 'homog'], 'elements': ['bin', 'tern'], 'N': [3, 7] if quick else [2, 3, 5, 9],
                                 'schedules': ['const', 'array4', 'array2-clamped', 'field+', 'field-'], 'routes': DIFF_ROUTES,
                                 'iterators': its},
